@@ -19,9 +19,21 @@ CHECKS = {
  "C06": ("exploration", "round-trip / injectivity / order oracles over storage key functions (probe, plain + checkptr) and before/after snapshots + store-dump + write-log audit of untouched instances in live create/write/delete/re-create histories",
          "Key tuples over boundary ids and every data type's tkey constructors are checked for round trip, injectivity, byte order == (instance, tkey, version) order, contiguity and foreign keys in ranges; live histories delete and re-create instances (incl. ids near 2^32) and compare every other instance's reads and raw stored entries after every operation.",
          "Instance deletion is reached through the RPC-equivalent datastore call (no HTTP route exists); sorting with bytes.Compare stands for Badger's order.", "3/C06"),
+ "C08": ("exploration", "reference-model monitor (brute-force voxel/mapping model, independent wire decoders) over recorded proofreading histories; conservation checked separately",
+         "Sequences of ingest (raw, blocks, offline indices+mappings), mutate, merge, cleave, split-supervoxel (8 shapes), renumber, split and illegal requests interleaved with commit/newversion/branch; after every settled mutation and at every version at the end ~48 endpoint views are recomputed by scanning the model's voxels; voxel conservation and body/supervoxel partition are computed from server responses only.",
+         "Volumes of 2-3 blocks per axis of 32^3 incl. negative origins; skipped formats are listed in the evidence; settle additionally waits until no goroutine is inside labelmap/downres code.", "3/C08"),
+ "C11": ("exploration", "linearizability checking (porcupine, per-key register model) of recorded concurrent histories + conservation oracles for commuting operations after settle + race detector as evidence",
+         "2-8 requests released by one barrier under four delay-injection profiles at store-call boundaries: keyvalue POST/DELETE/GET (porcupine), annotation element edits in one block/tag, labelmap merges into one target, neuronjson posts on one/several ids, newversion/branch on one parent; every acknowledged element/supervoxel/field must be present exactly once and at most one child per branch.",
+         "Only interleavings produced by barrier + delays + 16 cores are observed; race reports are listed, verdicts come from the history oracles.", "3/C11"),
  "C12": ("fault_enumeration", "offline checker over the recorded id event log (uniqueness, real-time-order monotonicity by interval sweep, freshness) + crash injection before every write of an allocation script",
          "Ids are taken from acknowledged responses (MutationID, CleavedLabel, Split/RemainSupervoxel, nextlabel ranges), VersionIDs from repo JSON, repo/instance ids from the store write log; histories mix allocations with ingests of arbitrary large labels, 3-8-way concurrent allocation phases, restarts and a crash before every store write of an allocation script that crosses the mutation-id persistence stride.",
          "Concurrent stamps come from the worker's monotonic clock around ServeSingleHTTP; an allocation racing an unsettled ingest is counted, not judged.", "3/C12"),
+ "C13": ("exploration", "reference-model monitor (element set + independent label volume) over recorded annotation / label-operation histories, every view after every settled operation",
+         "POST elements (new, overwrite, tag swaps, kind changes, mutual and one-sided relationships), delete, move across block/body classes, POST blocks + reload, and merge/cleave/split/mutate on the synced labelmap; block, tag, label, ROI views and labelsz count/counts/top/threshold are compared with the model after each settle and on committed ancestors.",
+         "Relationship rules asserted for mutual references only (as the statement says); reload completion is read from the server log line; volume sometimes placed at negative origin.", "3/C13"),
+ "C14": ("exploration", "level-to-level recomputation monitor of the documented 2x2x2 vote from the server's own level-n data and from the model",
+         "MaxDownresLevel 1-3, ingests, mutating writes, single-octant rewrites in child versions, all-zero blocks, negative block coordinates, splits; after settle every voxel of level n+1 (raw and blocks reads) must equal the vote over level n; an in-process watcher samples whether the instance reports idle while a level is stale.",
+         "Vote rule as documented in the code (most frequent non-zero, ties to the smaller label, all zero -> zero).", "3/C14"),
  "C16": ("exploration", "differential monitor (in-memory head vs store-backed committed parent vs restarted process) + metamorphic update rules",
          "Scripted minimal scenarios and random POST/DELETE/schema sequences; after every step a commit+newversion pair holding identical data is read through 32 endpoint forms on both paths and across clean/abrupt/SIGKILL restarts; the three update rules of the statement are checked on every update.",
          "Endpoints that promise no order are compared as multisets; fieldtimes only across restarts (the store path does not serve it); deliberately no re-implementation of updateJSON.", "3/C16"),
